@@ -1146,7 +1146,7 @@ func (h *vC03Hist) resolve(s vC03Spec, wireborn bool, client netip.Prefix, kind 
 		}
 		if kind == 0 {
 			sc := netip.Prefix{}
-			if clientScope.IsValid() && scopeBits > 0 && scopeBits <= clientScope.Addr().BitLen() {
+			if clientScope.IsValid() && scopeBits > 0 { // a SCOPE beyond the family's length counts as the whole address (fix 9eb1ef6)
 				b := min(scopeBits, clientScope.Bits())
 				floor := int(h.pol[3])
 				if clientScope.Addr().Is4() {
